@@ -1098,3 +1098,16 @@ pub mod verif_hooks {
         extract_next_batch(blocks, max_batch_size).map(|batch| batch.map(|(_, block)| block.len()).collect())
     }
 }
+
+#[cfg(feature = "verif")]
+pub mod verif_hooks_receive {
+    use super::*;
+
+    /// Run the private receive-side conversion of one block: `Some((cid, data))` if it is delivered to the user.
+    pub fn block_to_cid(peer: &PeerId, prefix: Vec<u8>, data: Vec<u8>) -> Option<(Cid, Vec<u8>)> {
+        match block_to_response(peer, schema::bitswap::Block { prefix, data }) {
+            Some(ResponseType::Block { cid, block }) => Some((cid, block)),
+            _ => None,
+        }
+    }
+}
